@@ -211,6 +211,21 @@ def run(ctx: Ctx) -> int:
     ok = g5.must_pass(via, [t for h in head for t, lab in g5.nodes[h].succ if lab == "loop"], head, exclude_labels={"e", "r"})
     ctx.oblige("C15.d", ok, loop[0], "each iteration either applies the link (set_target_value) or takes the logged skip_link `continue`" if ok else "an iteration of the link loop can finish without applying the link", fn=apf)
 
+    # recursion into the selected subcommand does not depend on the parent's own links
+    for fref in ("_link_arguments:ActionLink.apply_parsing_links", "_link_arguments:ActionLink.strip_link_target_keys"):
+        fn_ = ctx.func(fref)
+        gg = ctx.cfg(fn_)
+        recs = [c for c in calls_in(fn_) if call_leaf(c) == fn_.name and c.args and root_name(c.args[0]) in ("subparser", "subparsers")]
+        ctx.need(recs, f"{fref}: recursion into the subcommand parser")
+        for c in recs:
+            bad = [ast.unparse(t) for t, pol in gg.guards_of(gg.cn(c), exclude_labels={"e"}) if "_links_group" in ast.unparse(t)]
+            ctx.oblige("C15.a", not bad, c, "links of a subcommand parser are handled whether or not the parent parser has links of its own" if not bad else f"recursion into the subcommand parser is reached only if the parent has links ({bad[0]}): links declared on a subcommand are skipped when the parent declares none", fn=fn_)
+    # the per-item loop of set_target_value visits every item
+    for lp in walk_local(stv):
+        if isinstance(lp, ast.For) and any(contains(lp, s) for s in stores):
+            early = [n for n in walk_local(lp) if isinstance(n, (ast.Break, ast.Return))]
+            ctx.oblige("C15.d", not early, early[0] if early else lp, "every item of a list of classes that has the linked parameter receives the value (no early exit from the loop)" if not early else "the loop over the items of a list target can stop early: later items keep a stale value", fn=stv, construct="item loop complete")
+
     ctx.assumptions += ["argparse dispatches an option to the action registered in parser._option_string_actions"]
     return ctx.finish(
         explanation=(
